@@ -353,7 +353,7 @@ func (p *parser) parseIPv6(u *Url, input *inputString) (string, error) {
 }
 
 func (p *parser) parseOpaqueHost(u *Url, input string) (string, error) {
-	output := ""
+	var output strings.Builder
 	for i, c := range input {
 		if ForbiddenHostCodePoint.Test(uint(c)) {
 			if p.opts.laxHostParsing {
@@ -370,7 +370,12 @@ func (p *parser) parseOpaqueHost(u *Url, input string) (string, error) {
 			}
 		}
 		if c == '%' {
-			invalidPercentEncoding, d := remainingIsInvalidPercentEncoded([]rune(input[i:]))
+			// only the two code points after the '%' matter: at most 9 bytes
+			end := i + 9
+			if end > len(input) {
+				end = len(input)
+			}
+			invalidPercentEncoding, d := remainingIsInvalidPercentEncoded([]rune(input[i:end]))
 			if invalidPercentEncoding {
 				if err := p.handleErrorWithDescription(u, errors.InvalidURLUnit, false, d); err != nil {
 					return "", err
@@ -378,9 +383,9 @@ func (p *parser) parseOpaqueHost(u *Url, input string) (string, error) {
 			}
 		}
 
-		output += p.percentEncodeRune(c, C0PercentEncodeSet)
+		output.WriteString(p.percentEncodeRune(c, C0PercentEncodeSet))
 	}
-	return output, nil
+	return output.String(), nil
 }
 
 type IPv6Addr [8]uint16
